@@ -91,6 +91,27 @@ def timed_parse(text, hard=HARD):
         signal.setitimer(signal.ITIMER_VIRTUAL, 0)
 
 
+AGED_PROBES = ['T154N-R97W Sec 14: NE/4',
+               '\n'.join(f'T15{i}N-R9{i}W Sec {i + 1}: NE/4' for i in range(10)),
+               'NE/4 of Sec 14, W/2 of Sec 15, T154N-R97W; Lots 1 - 3 of Sec 1, T155N-R97W']
+
+
+def aged_process_times(n_before):
+    """(text, CPU seconds in this fresh worker, CPU seconds after n_before parses under all kinds of settings)"""
+    import pytrs
+    fresh = [timed_parse(t, hard=12.0) for t in AGED_PROBES]
+    cfgs = ['ocr_scrub', 'segment', 'clean_qq,parse_qq', 'sec_within', None, 'ocr_scrub,segment', 'sec_colon_cautious', 's,e', 'qq_depth.1,parse_qq']
+    texts = ['TI54N-R97W Sec 14: NE/4, Sec 15: W/2', 'Township 154 North, Range 97 West\nSection 1: Lots 1 - 3, S/2N/2', 'T154-R97 Sec 3: NE, N2']
+    for i in range(n_before):
+        try:
+            d = pytrs.PLSSDesc(texts[i % len(texts)], config=cfgs[i % len(cfgs)])
+            d.parse(ocr_scrub=(i % 2 == 0), parse_qq=True)
+        except Exception:  # noqa
+            pass
+    aged = [timed_parse(t, hard=12.0) for t in AGED_PROBES]
+    return [(t, a, b) for t, a, b in zip(AGED_PROBES, fresh, aged)]
+
+
 def build(prefix, unit, suffix, frac=1.0):
     room = LIMIT - len(prefix) - len(suffix)
     n = max(1, int(room // max(1, len(unit)) * frac))
@@ -269,6 +290,18 @@ def run(ctx):
                                                     'why': 'structural repetition: time exceeds 2 s and grows super-linearly'},
                                   tag=STRUCTURAL_KNOWN.get(name))
     rep.sample({'structural': 'k lines each repeating a Twp/Rge; k sections; k lots'}, cap=3)
+    # an ordinary description stays fast in a process that has parsed a batch of other descriptions before (all settings in turn)
+    with mp.Pool(1) as pool:
+        aged = pool.apply(aged_process_times, (40 if not ctx.thorough else 120,))
+    for text, t_fresh, t_aged in aged:
+        rep.count()
+        rep.nontrivial(('aged', text))
+        if t_aged > SLOW and t_aged > 3 * max(t_fresh, 0.05):
+            rep.violation('failing-input', {'text': text, 'length': len(text), 'seconds_in_a_fresh_process': round(t_fresh, 3),
+                                            'seconds_after_a_batch_of_parses': round(t_aged, 3),
+                                            'why': 'parsing time of an ordinary description depends on what the process parsed before '
+                                                   '(exceeds 2 s after a batch of earlier parses)'})
+    rep.extra['aged_process'] = [[t[:60], round(a, 3), round(b, 3)] for t, a, b in aged]
     # the model's cost analysis is tied to the regenerated patterns by the build; the driver reports which patterns are Safe
     if ctx.driver is not None:
         out = ctx.driver.run(['rx.safe'])
